@@ -695,7 +695,16 @@ impl<T> ExternalError<T> for Result<T, ring_error::Unspecified> {
 #[cfg(feature = "pem")]
 impl<T> ExternalError<T> for Result<T, pem::PemError> {
 	fn _err(self) -> Result<T, Error> {
-		self.map_err(|e| Error::PemError(e.to_string()))
+		// `MismatchedTags` and `InvalidHeader` quote whatever the parser found in the tag and
+		// header positions of the input. In a slightly malformed private key file that can be
+		// the key material itself, so those texts are not repeated in the error.
+		self.map_err(|e| {
+			Error::PemError(match e {
+				pem::PemError::MismatchedTags(..) => "mismatching BEGIN and END tags".into(),
+				pem::PemError::InvalidHeader(..) => "invalid header".into(),
+				e => e.to_string(),
+			})
+		})
 	}
 }
 
